@@ -1,5 +1,6 @@
 mod common;
 mod c10;
+mod tsx_client;
 
 fn main() {
     let args: Vec<String> = std::env::args().collect();
@@ -11,6 +12,8 @@ fn main() {
     let cases = common::read_cases(&args[2]);
     match args[1].as_str() {
         "c10" => c10::run(&cases),
+        "c05" => tsx_client::run(&cases, false),
+        "c07" => tsx_client::run(&cases, true),
         other => {
             eprintln!("unknown property {}", other);
             std::process::exit(2);
